@@ -10,6 +10,11 @@ def children(prop, tier, configs, tmp):
     for c in configs:
         if prop == "C19":
             out.append(dict(config=c, label=c, args=[], env={"VERIF_TRANSCRIPT": os.path.join(tmp, "transcript-%s.txt" % c)}))
+            if c == "asm":
+                # the same binary with run-time CPU feature detection switched off: an implementation that is
+                # chosen at run time (internal/cpu, x/sys/cpu) rather than by a build constraint takes its other path
+                out.append(dict(config=c, label="asm-cpuoff", args=[], env={"VERIF_TRANSCRIPT": os.path.join(tmp, "transcript-asm-cpuoff.txt"),
+                                                                           "GODEBUG": "cpu.all=off"}))
         elif prop == "C20":
             for k in range(C20_BATCHES[tier]):
                 lab = "%s-batch%d" % (c, k)
@@ -52,7 +57,7 @@ def _race_key(block):
 def post(prop, tier, seed, tmp, bins, results, notes, log, ENV, VERIF, REPLAYS=None):
     REPLAYS = REPLAYS or os.path.join(VERIF, "replays")
     if prop == "C19":
-        files = {r["config"]: os.path.join(tmp, "transcript-%s.txt" % r["config"]) for r in results}
+        files = {r["label"]: os.path.join(tmp, "transcript-%s.txt" % r["label"]) for r in results}
         base = files.get("asm")
         for cfg, f in files.items():
             if cfg == "asm" or not base or not os.path.exists(base) or not os.path.exists(f):
@@ -65,7 +70,7 @@ def post(prop, tier, seed, tmp, bins, results, notes, log, ENV, VERIF, REPLAYS=N
             if n == 0:
                 diff = 0
             for r in results:
-                if r["config"] == cfg and r["partial"]:
+                if r["label"] == cfg and r["partial"]:
                     r["partial"].setdefault("extras", {})["transcript_lines_compared_with_asm"] = n
                     r["partial"]["classes"]["c19:transcript:lines-compared-asm-vs-" + cfg] = n
             if diff is not None:
@@ -75,7 +80,7 @@ def post(prop, tier, seed, tmp, bins, results, notes, log, ENV, VERIF, REPLAYS=N
                                cmd=["bin/check", "C19"], log_tail="first differing call #%d\nasm   : %s\n%-6s: %s" % (
                                    diff, a[diff] if diff < len(a) else "<missing>", cfg, b[diff] if diff < len(b) else "<missing>")), open(path, "w"), indent=1)
                 for r in results:
-                    if r["config"] == cfg:
+                    if r["label"] == cfg:
                         r.setdefault("extra_stdout", []).append("VIOLATION property=C19 replay=%s" % path)
                         r["extra_stdout"].append("  asm and %s builds disagree at call #%d of the seeded transcript" % (cfg, diff))
                         if r["partial"]:
